@@ -15,6 +15,9 @@ type monad struct {
 	// builder methods taking an already wrapped operand / a thunk, besides Ap and ApFunc
 	apWrapped map[string]string    // method -> wrapper function of the operand
 	apThunk   map[string][2]string // method -> (thunk result type ctor, wrapper)
+	// builder methods whose operand can be a failure carrying an error of its own: method -> constructor
+	apFailed map[string]string
+	chkFail  string // harness helper: the result is the failure with the given error
 }
 
 var (
@@ -23,13 +26,15 @@ var (
 		apThunk:   map[string][2]string{"ApOptionFunc": {"fp.Option", "option.Some"}}}
 	tryM = monad{pkg: "try", ty: func(x string) string { return "fp.Try[" + x + "]" }, some: "try.Success", chk: "chkTry", conv: "tryInts", chkUnit: "chkTryUnit",
 		apWrapped: map[string]string{"ApOption": "option.Some", "ApTry": "try.Success"},
-		apThunk:   map[string][2]string{"ApOptionFunc": {"fp.Option", "option.Some"}, "ApTryFunc": {"fp.Try", "try.Success"}}}
+		apThunk:   map[string][2]string{"ApOptionFunc": {"fp.Option", "option.Some"}, "ApTryFunc": {"fp.Try", "try.Success"}},
+		apFailed:  map[string]string{"ApTry": "try.Failure[int]"}, chkFail: "chkTryFail"}
 	// futureM: every operand is an already completed future; chkFut (c14_test.go) installs a run-to-completion
 	// task queue as the default executor through the verif spawn hook, drains it after the call and reads the
 	// result. Members are called without their optional trailing `exec ...fp.Executor` argument.
 	futureM = monad{pkg: "future", ty: func(x string) string { return "fp.Future[" + x + "]" }, some: "future.Successful", chk: "chkFut", conv: "futInts", chkUnit: "chkFutUnit",
 		apWrapped: map[string]string{"ApOption": "option.Some", "ApTry": "try.Success", "ApFuture": "future.Successful"},
-		apThunk:   map[string][2]string{"ApOptionFunc": {"fp.Option", "option.Some"}, "ApTryFunc": {"fp.Try", "try.Success"}, "ApFutureFunc": {"fp.Future", "future.Successful"}}}
+		apThunk:   map[string][2]string{"ApOptionFunc": {"fp.Option", "option.Some"}, "ApTryFunc": {"fp.Try", "try.Success"}, "ApFutureFunc": {"fp.Future", "future.Successful"}},
+		apFailed:  map[string]string{"ApTry": "try.Failure[int]", "ApFuture": "future.Failed[int]"}, chkFail: "chkFutFail"}
 )
 
 func (mo monad) clause(m *member, name, stmts, res, want string) string {
@@ -360,6 +365,31 @@ func regMonad(mo monad) {
 				}
 				b.WriteString(mo.clause(m, v, stmts, res, want))
 				n++
+				if fw, ok := mo.apFailed[v]; ok && k >= 2 {
+					// failed operands are arguments too: with the operands at positions p < q failed, each with an
+					// error of its own, the defining equation (LiftAk / nested FlatMap over the operands in order)
+					// gives the failure of position p
+					pairs := [][2]int{{1, 2}}
+					if k >= 4 {
+						pairs = append(pairs, [2]int{k - 2, k - 1})
+					}
+					if k >= 3 {
+						pairs = append(pairs, [2]int{1, k})
+					}
+					for _, pq := range pairs {
+						var ch strings.Builder
+						fmt.Fprintf(&ch, "%s.%s(f)", p, m.Name)
+						for i := 1; i <= k; i++ {
+							if i == pq[0] || i == pq[1] {
+								fmt.Fprintf(&ch, ".%s(%s(posErr(%d)))", v, fw, i)
+							} else {
+								st, _ := step(v, i, k, false)
+								ch.WriteString(st)
+							}
+						}
+						b.WriteString(fmt.Sprintf("\t\t%s(rt, rec, %s, func() %s { return %s }, posErr(%d))\n", mo.chkFail, sig(m, fmt.Sprintf("%s/failed-%d-and-%d", v, pq[0], pq[1])), mo.ty("[]int"), ch.String(), pq[0]))
+					}
+				}
 				_, isThunk := mo.apThunk[v]
 				if typeFam == "MonadChain" && k >= 2 && (isThunk || v == "ApFunc") {
 					// the lazy variant at every position but the last, HListMap at the last: the values the chain
